@@ -43,7 +43,7 @@ GENS = [
     # zones the server signs itself: foreign DNSKEY by update, <apex ANY ANY>, restart (no continuation, see run())
     ("jsgn", "{ZS}", "{S10}", "<<JSg1, JSg2, JSg2>>", 3, ("quick", "thorough")),
     # the LockHeld fault on the last message of the history
-    ("jlock", "{ZS}", "{S10}", "<<JMsgs3 \\cup JRej, JMsgs1 \\cup JMsgs3>>", 2, ("quick", "thorough")),
+    ("jlock", "{ZS}", "{S10}", "<<JMsgs3 \\cup JSoa2, JMsgs1, JMsgs3 \\cup JSoa2>>", 3, ("quick", "thorough")),
     # long journals (more than 64 / 128 rows): padded zone, rows of kind add / delete / SOA / dump swept over row 65 (130)
     ("jlong", "{ZPad(p) : p \\in {58, 59, 60, 62}}", "{S10}", "<<{JLong1}, {JLong2}, {JLong3}>>", 3, ("quick",)),
     ("jlongfull", "{ZPad(p) : p \\in (53..64) \\cup (118..126)}", "{S10}", "<<{JLong1}, {JLong2}, {JLong3}>>", 3, ("thorough",)),
@@ -161,7 +161,11 @@ def run(res, tier, seed):
                     # 0e6d270), which the sign-agnostic Update rule would report for every re-sent message
                     c["cont"] = 0
                 if name == "jlock":
-                    c["msgs"][-1]["lock"] = True      # fault injection by the environment, no oracle
+                    # fault injection by the environment, no oracle: the lock is held during the first message
+                    # (two acknowledged messages follow before the stops) or during the last one
+                    c["msgs"][0 if i % 3 else -1]["lock"] = True
+                if name in ("j1", "jglue", "jsec") and i % 2:
+                    c["relroot"] = True               # config shape: relative paths under root_dir
                 if name.startswith("jlong"):
                     c["cut_tail"] = 8      # stops from 8 rows before the end of the dump on (driver control, no oracle)
             if not cases:
